@@ -101,7 +101,10 @@ func closePipe(n *Named, name string) {
 
 	n.mutex.Lock()
 
-	n.pipes[name].Pipe.Close()
+	// the pipe may already have been closed or deleted during the grace period
+	if n.pipes[name].Pipe != nil {
+		n.pipes[name].Pipe.Close()
+	}
 	delete(n.pipes, name)
 
 	n.mutex.Unlock()
